@@ -674,8 +674,23 @@ pub fn main_with(engine: &str, cases: &[Case]) {
     writeln!(out, "HELLO {engine} cases={} arena={}", cases.len(), arena::audits_enabled()).unwrap();
     out.flush().unwrap();
     let _ = catch_unwind(|| std::panic::panic_any(fault::Injected { kind: fault::Kind::Clone, k: 0 }));
+    // Profiles that are about one kind of task only draw from the cases that contain such a task
+    // (all cases if this binary has none).
+    let eligible: Vec<usize> = {
+        let want = |c: &Case| match profile.as_str() {
+            "C15" => c.desc.systems.iter().any(|s| !s.res.is_empty()),
+            "C09" => c.desc.systems.iter().any(|s| s.par),
+            _ => true,
+        };
+        let v: Vec<usize> = (0..cases.len()).filter(|i| want(&cases[*i])).collect();
+        if v.is_empty() {
+            (0..cases.len()).collect()
+        } else {
+            v
+        }
+    };
     let make = |idx: u64| -> (usize, u64, E2Config) {
-        let case = (idx as usize) % cases.len();
+        let case = eligible[(idx as usize) % eligible.len()];
         let mut ph = simcore::rng::Fnv::default();
         ph.bytes(profile.as_bytes());
         let rs = mix(&[case_seed(seed, engine, idx), ph.0]);
